@@ -9,6 +9,7 @@ never-ready descriptor the operation stayed pending for ever. `F9_repaired_ok` r
 is now (`Cfg.gen`): the cancel submits the queue, is queued itself and reaches the kernel.
 -/
 import Compio.Lemmas.KeyLifeCancel
+import Compio.Model.PollQueuesMulti05
 
 namespace Compio.Cex.C05
 
@@ -90,5 +91,11 @@ theorem F9_repaired_ok :
     (run Cfg.gen (init .iour 2) (full ++ [.submit])).map
         (fun s => s.ops.map fun o => (o.cancelDropped, o.kcancel, o.kstat))
       = some [(0, true, .inflight), (0, false, .inflight)] := ⟨by rfl, by rfl⟩
+
+/-- seeded/C05-4a (`Driver::cancel` stops after the first descriptor): the cancelled splice (key 0) is still at the head of the
+output descriptor's write queue, in front of its neighbour — the next writability event runs it -/
+theorem seed4a_leaves_key_queued :
+    let reg := Multi05.pushQueues (Multi05.pushQueues PollQueues.Reg.empty [(0, .rd), (1, .wr)] 0) [(0, .rd), (1, .wr)] 1
+    (Multi05.cancelQueuesFirstOnly reg [0, 1] 0 1).wq = [0, 1] ∧ (Multi05.cancelQueues reg [0, 1] 0 1).wq = [1] := by decide
 
 end Compio.Cex.C05
